@@ -39,6 +39,9 @@ pub struct VSpec {
     pub fields: Vec<FKind>,
     pub marker: i64,
     pub fmarkers: Vec<i64>,
+    /// tuple counterpart addressed through explicit index renames: designated counterpart position of the j-th
+    /// mapped payload field (`#[map(1)]`, `#[map(1, ~ + 5)]`); None = positions follow the declaration order
+    pub perm: Option<Vec<usize>>,
 }
 
 #[derive(Clone, Debug)]
@@ -120,7 +123,10 @@ pub fn gen(ctx: &mut Ctx, o: &EOpts) -> Option<ECase> {
             }
         }
         let fm = fields.iter().map(|_| mk()).collect();
-        variants.push(VSpec { name: VNAMES[k], shape, vkind, fields, marker: mk(), fmarkers: fm });
+        let cp_tuple = matches!((shape, vkind), (Shape::Tuple, VKind::Plain | VKind::Rename) | (Shape::Named, VKind::HintFlip));
+        let nmapped = fields.iter().filter(|f| **f != FKind::GhostDefault).count();
+        let perm = if o.full_menu && cp_tuple && nmapped >= 2 && ctx.flag() { Some(ctx.permutation(nmapped)) } else { None };
+        variants.push(VSpec { name: VNAMES[k], shape, vkind, fields, marker: mk(), fmarkers: fm, perm });
     }
     let ng = ctx.choose(4); // number of enum-level ghost entries (forms 0..ng)
     let mut enum_ghosts = vec![];
@@ -137,7 +143,10 @@ pub fn gen(ctx: &mut Ctx, o: &EOpts) -> Option<ECase> {
         tags.push(format!("v:{:?}/{:?}", v.vkind, v.shape));
         tags.push(format!("has:{:?}", v.vkind));
         for f in &v.fields {
-            tags.push(format!("hasf:{:?}", f));
+            tags.push(if v.perm.is_some() && *f != FKind::GhostDefault { format!("hasf:Idx{:?}", f) } else { format!("hasf:{:?}", f) });
+        }
+        if let Some(p) = &v.perm {
+            tags.push(if p.iter().enumerate().all(|(i, x)| i == *x) { "perm:identity".into() } else { "perm:crossed".into() });
         }
     }
     tags.sort();
@@ -176,7 +185,8 @@ impl VSpec {
                 FNAMES[i].to_string()
             }
         } else {
-            self.mapped().iter().position(|x| *x == i).unwrap().to_string()
+            let j = self.mapped().iter().position(|x| *x == i).unwrap();
+            self.perm.as_ref().map_or(j, |p| p[j]).to_string()
         }
     }
     pub fn mapped(&self) -> Vec<usize> {
@@ -220,7 +230,7 @@ impl ECase {
             }
             for (i, fk) in v.fields.iter().enumerate() {
                 let mut f = if v.shape == Shape::Named { Field::named(FNAMES[i], "i32") } else { Field::pos("i32") };
-                let needs_name = v.tshape() == Shape::Named && (v.shape != Shape::Named || *fk == FKind::Rename);
+                let needs_name = v.tshape() == Shape::Named && (v.shape != Shape::Named || *fk == FKind::Rename) || v.perm.is_some() && *fk != FKind::GhostDefault;
                 let nm = if needs_name { format!("{}, ", v.tfield(i)) } else { String::new() };
                 let m = v.fmarkers[i];
                 if v.vkind != VKind::VExpr && !v.is_ghost() {
@@ -351,6 +361,9 @@ impl ECase {
         let mut fields: Vec<(String, i64)> = v.mapped().iter().enumerate().map(|(j, i)| (v.tfield(*i), mapped_vals[j])).collect();
         if v.vkind == VKind::VGhosts {
             fields.push((if v.tshape() == Shape::Named { "g".into() } else { fields.len().to_string() }, ghost_val.unwrap_or(0)));
+        }
+        if v.tshape() == Shape::Tuple {
+            fields.sort_by_key(|f| f.0.parse::<usize>().unwrap_or(usize::MAX));
         }
         match v.tshape() {
             Shape::Unit => format!("{}::{}", tn, v.tname()),
